@@ -100,7 +100,43 @@ func runScenario(sc scenario) (msg string, nlines int, nwrites int) {
 				auditgen.Simple("USER_START", 1700001000+int64(i), 80001+3*i, ses, fmt.Sprint(pid), "success").Recs[0].Line+"\n"+
 				auditgen.Simple("CRED_DISP", 1700001000+int64(i), 80002+3*i, ses, fmt.Sprint(pid), "success").Recs[0].Line+"\n")
 	}
+	wantActions := map[string]int{}
+	for i := 0; i < n; i++ {
+		wantActions[fmt.Sprint(20000+i)] = 3
+	}
+	wantFailed := 0
 	switch sc.Shape {
+	case "sustained":
+		// both pipelines write to the output at the same time for a long stretch: first every session is
+		// correlated (so that its audit events are written, not held), then the sshd side reports failed
+		// logins (written by the sshd worker) while the audit side reports activity of the open sessions
+		// (written by the audit worker)
+		var open strings.Builder
+		for i := 0; i < n; i++ {
+			open.WriteString(strings.SplitAfter(auditLines[i], "\n")[0])
+			wantActions[fmt.Sprint(20000+i)] = 1
+		}
+		_, _ = sw.WriteString(strings.Join(sshdLines, ""))
+		_, _ = aw.WriteString(open.String())
+		for until := time.Now().Add(30 * time.Second); time.Now().Before(until); time.Sleep(5 * time.Millisecond) {
+			if b, _ := os.ReadFile(d.outPath); strings.Count(string(b), "\n") >= 2*n {
+				break
+			}
+		}
+		m := 250 * n
+		wantFailed = m
+		var failed, activity strings.Builder
+		for j := 0; j < m; j++ {
+			fmt.Fprintf(&failed, "%d Failed password for invalid user guest%d from 10.9.%d.%d port %d ssh2\n", 40000+j, j, j/250%250, j%250+1, 1024+j%60000)
+			i := j % n
+			activity.WriteString(auditgen.Simple("USER_START", 1700002000+int64(j), 200000+j, fmt.Sprint(100+i), fmt.Sprint(20000+i), "success").Recs[0].Line + "\n")
+			wantActions[fmt.Sprint(20000+i)]++
+		}
+		var wg sync.WaitGroup
+		wg.Add(2)
+		go func() { defer wg.Done(); _, _ = sw.WriteString(failed.String()) }()
+		go func() { defer wg.Done(); _, _ = aw.WriteString(activity.String()) }()
+		wg.Wait()
 	case "alternating":
 		for i := 0; i < n; i++ {
 			if i%2 == 0 {
@@ -118,7 +154,10 @@ func runScenario(sc scenario) (msg string, nlines int, nwrites int) {
 		go func() { defer wg.Done(); _, _ = aw.WriteString(strings.Join(auditLines, "")) }()
 		wg.Wait()
 	}
-	want := 4 * n
+	want := wantFailed
+	for _, a := range wantActions {
+		want += 1 + a
+	}
 	deadline := time.Now().Add(30 * time.Second)
 	count := func() int {
 		if sc.Output == "fifo" {
@@ -165,6 +204,7 @@ func runScenario(sc scenario) (msg string, nlines int, nwrites int) {
 	loginIdentity := map[string]string{}
 	actions := map[string]int{}
 	seen := map[string]int{}
+	failedSeen := 0
 	ident := func(e *auditevent.AuditEvent) string {
 		b, _ := json.Marshal(map[string]any{"subjects": e.Subjects, "source": e.Source, "target": e.Target})
 		return string(b)
@@ -181,6 +221,10 @@ func runScenario(sc scenario) (msg string, nlines int, nwrites int) {
 		pid := e.Subjects["pid"]
 		switch e.Type {
 		case "UserLogin":
+			if e.Outcome != "succeeded" {
+				failedSeen++
+				continue
+			}
 			if loginAt[pid] != 0 {
 				return "two UserLogin events for pid " + pid, nlines, 0
 			}
@@ -205,9 +249,12 @@ func runScenario(sc scenario) (msg string, nlines int, nwrites int) {
 		return fmt.Sprintf("%d UserLogin events for %d logins", len(loginAt), n), nlines, 0
 	}
 	for i := 0; i < n; i++ {
-		if a := actions[fmt.Sprint(20000+i)]; a != 3 {
-			return fmt.Sprintf("session of pid %d: %d UserAction events in the output, want 3 (none lost, none duplicated)", 20000+i, a), nlines, 0
+		if a, w := actions[fmt.Sprint(20000+i)], wantActions[fmt.Sprint(20000+i)]; a != w {
+			return fmt.Sprintf("session of pid %d: %d UserAction events in the output, want %d (none lost, none duplicated)", 20000+i, a, w), nlines, 0
 		}
+	}
+	if failedSeen != wantFailed {
+		return fmt.Sprintf("%d failed UserLogin events in the output for %d failed-login lines (none lost, none duplicated)", failedSeen, wantFailed), nlines, 0
 	}
 	if noTrace {
 		return "", nlines, 0
@@ -320,11 +367,18 @@ func runC10c(run *mc.Run) int {
 	if run.Thorough() {
 		scs = append(scs, scenario{200, "simultaneous", "file"})
 	}
+	// without strace (which slows and serialises the daemon): both pipelines writing for a long stretch
+	scs = append(scs, scenario{16, "sustained", "file"})
+	if run.Thorough() {
+		scs = append(scs, scenario{64, "sustained", "file"}, scenario{200, "sustained", "file"})
+	}
 	inconcl := 0
 	var samples []any
 	lines := 0
 	for _, sc := range scs {
+		noTrace = sc.Shape == "sustained"
 		msg, nl, nw := runScenario(sc)
+		noTrace = false
 		lines += nl
 		fmt.Printf("  %+v: lines=%d writes=%d %s\n", sc, nl, nw, msg)
 		samples = append(samples, map[string]any{"scenario": sc, "output_lines": nl, "write_calls": nw})
@@ -338,7 +392,7 @@ func runC10c(run *mc.Run) int {
 		}
 	}
 	cov := mc.Coverage{Level: "exploration", Evaluations: len(scs), Distinct: len(scs) - inconcl, Exhaustive: inconcl == 0, Samples: samples,
-		Rule:  "the built daemon under strace (-f -e trace=openat,write) with bursts on both FIFOs: sessions {2,16(,200)} x burst shape {alternating, simultaneous} x output {regular file, FIFO}; oracle: never several descriptors without O_APPEND, every write(2) on it returns its full length and carries exactly one complete JSON line, every output line parses, none twice, each login's UserLogin precedes its UserActions, per session exactly 1+3 events. OS schedules are not enumerated (order-independent oracle). distinct_nontrivial = conclusive scenarios",
+		Rule:  "the built daemon under strace (-f -e trace=openat,write) with bursts on both FIFOs: sessions {2,16(,200)} x burst shape {alternating, simultaneous} x output {regular file, FIFO}, plus - without strace - a sustained stretch in which the sshd worker writes 250 x N failed-login events while the audit worker writes 250 x N actions of N already correlated sessions; oracle: never several descriptors without O_APPEND, every write(2) on it returns its full length and carries exactly one complete JSON line, every output line parses, none twice, each login's UserLogin precedes its UserActions, per session exactly 1+3 events. OS schedules are not enumerated (order-independent oracle). distinct_nontrivial = conclusive scenarios",
 		Extra: map[string]any{"output_lines_checked": lines}}
 	cov.Assumptions = []string{"Linux appends a single write(2) to an O_APPEND file atomically (and <= PIPE_BUF to a FIFO)", "strace's rendering of write(2)"}
 	return run.Finish(cov)
